@@ -650,13 +650,36 @@ def gen_line(rng):
     return rng.choice(DOTS)
 
 
+NONDEFAULT = ['boxed 1', 'expand on', 'spaced yes', 'unicode t', 'narrow 0', 'narrow off', 'numberify y', 'boxed TRUE',
+              'nullvalue NULL', 'nullvalue "- -"', "nullvalue '?'", 'format csv', 'format text', 'expand 1', 'unicode Yes',
+              'numberify on', 'pager no', 'narrow f', 'spaced T']
+RUN_OK = ['.run food', '.run fromq', '.run early', '.run closed', '.run openonly', '.run bal', '.run jrn', '.run none',
+          '.run my-query', '.run *', '.run sub', '.run zlast']
+
+
 def gen_session(rng, maxlen=12):
     n = rng.randint(1, maxlen)
     lines = []
-    for _ in range(n):
-        lines.append(gen_line(rng))
+    if rng.random() < 0.5:
+        # configured session: several settings away from their defaults, then statements
+        for v in rng.sample(NONDEFAULT, rng.randint(1, 5)):
+            lines.append(rng.choice(['.set ', '.set ', 'set ', '.set\t']) + v)
+        for _ in range(rng.randint(1, 4)):
+            r = rng.random()
+            if r < 0.65:
+                lines.append(vary(rng, rng.choice(TYPED[:10] if r < 0.5 else TYPED)))
+            elif r < 0.85:
+                lines.append(rng.choice(RUN_OK))
+            else:
+                lines.append('.set ' + rng.choice(NONDEFAULT))
         if rng.random() < 0.5:
             lines.append('.set')
+        rng.shuffle(lines) if rng.random() < 0.15 else None
+    else:
+        for _ in range(n):
+            lines.append(gen_line(rng))
+            if rng.random() < 0.5:
+                lines.append('.set')
     lines = lines[:maxlen]
     return {'ledger': rng.choice(['A', 'A', 'A', 'B', 'C', 'C']), 'format': rng.choice(['text', 'text', 'csv']),
             'numberify': rng.random() < 0.25, 'same_stdout': rng.random() < 0.2,
@@ -673,6 +696,15 @@ CORPUS = [
     {'ledger': 'C', 'format': 'csv', 'numberify': True,
      'lines': ['.run *', 'BALANCES', '.set format text', '.set expand 1', '.set unicode on', '.set boxed t',
                'SELECT account, sum(position) AS total GROUP BY account', '.errors', '.reload', 'foo']},
+    {'ledger': 'B', 'format': 'text', 'numberify': False,
+     'lines': [x for v in ['1', 'true', 't', 'yes', 'y', 'on'] for x in ('.set spaced ' + v, '.set spaced', '.set spaced 0')]},
+    {'ledger': 'B', 'format': 'text', 'numberify': False,
+     'lines': [x for v in ['0', 'false', 'f', 'no', 'n', 'off'] for x in ('.set narrow ' + v, '.set narrow', '.set narrow 1')]},
+    {'ledger': 'A', 'format': 'text', 'numberify': False,
+     'lines': ['.set narrow 0', "SELECT 1 AS a_rather_long_header, 'x' AS s", '.set boxed 1', '.set unicode 1',
+               'SELECT date, payee, account, position, balance', '.set expand 1', '.set spaced 1', '.set nullvalue ~',
+               'SELECT date, payee, account, position, balance', '.set numberify 1',
+               'SELECT account, sum(position) AS total GROUP BY account', '.run fromq']},
     {'ledger': 'B', 'format': 'text', 'numberify': False, 'same_stdout': True,
      'lines': ['.run', '.run *', '.run x', "SELECT account WHERE account = 'Nope'", '.set narrow 0',
                "SELECT 1 AS a_rather_long_header, 'x' AS s", '.set spaced y', 'JOURNAL \'Assets:Checking\'', 'EOF']},
@@ -910,7 +942,8 @@ def run_cli(case):
     finally:
         shell.INIT_FILENAME, shell.HISTORY_FILENAME = init_filename, history_filename
         warnings.showwarning = saved
-    content = None
+    # click.File('w') opens lazily: a run that writes nothing leaves no file; treated as an empty one
+    content = '' if target else None
     if target and os.path.exists(target):
         with open(target, newline='') as f:
             content = f.read()
